@@ -10,6 +10,7 @@ the TLC-printed cases.  Mechanism-only differences are MODEL-DRIFT.
 """
 import json
 import random
+from concurrent.futures import ThreadPoolExecutor
 
 from lib import vlib
 
@@ -25,6 +26,13 @@ def _gen(ctx, module, cfg, defines, mode="mc", num=0, depth=0, timeout=900, coun
     if not r.cases:
         raise vlib.MachineryError("%s %s (%s) produced no cases" % (module, cfg, label))
     return r
+
+
+def _par(*thunks):
+    """Run independent TLC / harness invocations side by side (each has its own scratch dir)."""
+    with ThreadPoolExecutor(max_workers=len(thunks)) as ex:
+        futs = [ex.submit(t) for t in thunks]
+        return [f.result() for f in futs]
 
 
 def _run(ctx, sub, cases, timeout=900):
@@ -244,15 +252,18 @@ def check_c30(ctx):
                        "distinct = distinct operation sequences.")
     mcd = HP_SETS["mc_quick" if q else "mc_thorough"]
     ctx.cov["constants"]["Hpack_MC"] = mcd
-    ctx.tlc_must_pass(SPEC, "Hpack", "Hpack_MC.cfg", defines=mcd, timeout=3000)
     cases = []
     g1 = HP_SETS["gen_small"]
     ctx.cov["constants"]["Hpack_Gen_exhaustive"] = g1
-    base = _gen(ctx, "GenHpack", "Hpack_Gen.cfg", g1, timeout=1500, label="exhaustive").cases
     g2 = HP_SETS["gen_sim"]
     ctx.cov["constants"]["Hpack_Gen_sim"] = g2
-    sim = _gen(ctx, "GenHpack", "Hpack_Gen.cfg", g2, mode="sim", num=400 if q else 6000, depth=40,
-               label="sim").cases
+    ctx.build("h2lib")
+    _, base, sim, events = _par(
+        lambda: ctx.tlc_must_pass(SPEC, "Hpack", "Hpack_MC.cfg", defines=mcd, timeout=3000),
+        lambda: _gen(ctx, "GenHpack", "Hpack_Gen.cfg", g1, timeout=1500, label="exhaustive").cases,
+        lambda: _gen(ctx, "GenHpack", "Hpack_Gen.cfg", g2, mode="sim", num=400 if q else 6000, depth=40,
+                     label="sim").cases,
+        lambda: _hpack_record(ctx, [{"cases": 12 if q else 150, "ops": 150 if q else 400}], "record"))
     for alt in range(0, 2 if q else 4):
         for c in base + sim:
             cases.append({"ops": c["ops"], "alt": alt})
@@ -264,7 +275,6 @@ def check_c30(ctx):
     ctx.traces(len(cases))
     ctx.sample({"replayed": [{k: o[k] for k in ("op", "f", "arg", "reps")} for o in sim[0]["ops"][:6]]})
     # code -> spec: long seeded runs of the real pair
-    events = _hpack_record(ctx, [{"cases": 12 if q else 150, "ops": 150 if q else 400}], "record")
     bad = _hpack_trace(ctx, events, "record")
     _hpack_report_bad(ctx, events, bad)
     runs = len({e["cid"] for e in events})
@@ -274,6 +284,97 @@ def check_c30(ctx):
     ctx.sample({"recorded_event": {k: fe[len(fe) // 2][k] for k in ("f", "reps", "wire", "emax", "dmax")}})
     for cid in {e["cid"] for e in events}:
         ctx.count(["recorded", ctx.seed, cid])
+
+
+# ---------------------------------------------------------------------------- C31
+
+GO_VENDORED_TABLES = "src/vendor/golang.org/x/net/http2/hpack/tables.go"
+HUFF_SYMS = [("a", 97), ("b", 98), ("j", 106), ("&", 38), ("!", 33), ("$", 36), ("X", 2), ("Y", 10)]
+
+
+def huff_table_text():
+    """specs/H2/HuffTable.tla derived from the Go distribution's vendored copy of RFC 7541 Appendix B
+    (independent of bfe_http2/hpack/tables.go).  Refuses to produce a table that disagrees with the
+    RFC-known anchors."""
+    import re
+    import subprocess
+    goroot = subprocess.run(["go", "env", "GOROOT"], stdout=subprocess.PIPE, text=True,
+                            env=vlib._env()).stdout.strip()
+    src = open("%s/%s" % (goroot, GO_VENDORED_TABLES)).read()
+
+    def arr(name):
+        m = re.search(name + r" = \[256\]\w+\{(.*?)\n\}", src, re.S)
+        return [int(x, 0) for x in re.findall(r"0x[0-9a-f]+|\d+", m.group(1))]
+    codes, lens = arr("huffmanCodes"), arr("huffmanCodeLen")
+    anchors = {48: (0x0, 5), 97: (0x3, 5), 38: (0xf8, 8), 10: (0x3ffffffc, 30), 0: (0x1ff8, 13), 255: (0x3ffffee, 26)}
+    if len(codes) != 256 or len(lens) != 256 or any((codes[k], lens[k]) != v for k, v in anchors.items()):
+        raise vlib.MachineryError("vendored Huffman table disagrees with RFC 7541 Appendix B anchors")
+    # prefix-freeness of the full table (a transcription slip would show here)
+    full = sorted(format(codes[i], "0%db" % lens[i]) for i in range(256)) + ["1" * 30]
+    full.sort()
+    for x, y in zip(full, full[1:]):
+        if y.startswith(x):
+            raise vlib.MachineryError("vendored Huffman table is not prefix free")
+    rows = []
+    for ch, o in HUFF_SYMS:
+        bits = format(codes[o], "0%db" % lens[o])
+        rows.append('  [ch |-> "%s", oct |-> %d, code |-> <<%s>>]' % (ch, o, ", ".join(bits)))
+    rows.append('  [ch |-> "#", oct |-> 256, code |-> <<%s>>]' % ", ".join("1" * 30))
+    return ("--------------------------- MODULE HuffTable ---------------------------\n"
+            "(* Sub-table of the RFC 7541 Appendix B Huffman code: symbols with code lengths 5, 6, 7, 8,  *)\n"
+            "(* 10, 13, 28, 30 and EOS (last row, 30 one-bits).  GENERATED by families/h2lib.py from the  *)\n"
+            "(* Go distribution's vendored golang.org/x/net/http2/hpack/tables.go (an independent copy;   *)\n"
+            "(* the generator checks RFC anchors and prefix-freeness) and re-checked on every run.        *)\n"
+            "(* ch: the character standing for the symbol in the spec's strings; oct: the octet.          *)\n"
+            "HuffSyms == <<\n" + ",\n".join(rows) + " >>\n"
+            "=========================================================================\n")
+
+
+def check_huff_table():
+    want = huff_table_text()
+    have = open(vlib.SPECS + "/H2/HuffTable.tla").read()
+    if want != have:
+        raise vlib.MachineryError("specs/H2/HuffTable.tla differs from the table derived from the Go "
+                                  "distribution's vendored hpack/tables.go")
+
+
+def check_c31(ctx):
+    q = ctx.tier == "quick"
+    check_huff_table()
+    d = {"TIER": ctx.tier, "HUFFLEN": 2 if q else 3}
+    ctx.cov["constants"]["HpackDecode_GenMC"] = d
+    ctx.cov["rule"] = ("one TLC run enumerates header blocks structurally (1-2 representations out of a menu of "
+                       "indexed / literal x3 / size-update items with canonical, non-minimal, 9- and 10-continuation "
+                       "integers, raw and Huffman strings with every padding class and EOS; cut short by 1-3 octets or "
+                       "with an over-announced string; all Huffman strings up to HuffLen symbols over a 9-symbol "
+                       "sub-table), serialises them to octets, computes the RFC 7541 verdict and checks that the "
+                       "octet-level incremental decoder model agrees at every split point; every block is replayed "
+                       "through hpack.Decoder.Write/Write/Close at every split point under recover: error iff the "
+                       "RFC says so (either where the RFC leaves it open), fields equal, split-independent. "
+                       "distinct = distinct blocks.")
+    r = _gen(ctx, "GenHpackDecode", "HpackDecode_GenMC.cfg", d, timeout=2400, count=True, label="blocks")
+    cases = r.cases
+    ctx.cov["exhaustive"] = True
+    res = _run(ctx, "hpackdec-run", cases, timeout=1500)
+    _judge(ctx, "hpackdec-run", cases, res, "decode")
+    kinds = {}
+    xd = 0
+    xex = []
+    for c, rr in zip(cases, res):
+        ctx.count([c["bytes"]], nontrivial=len(c["bytes"]) > 0)
+        kinds[c["kind"]] = kinds.get(c["kind"], 0) + 1
+        o = rr.get("obs") or {}
+        if "xnet" in o:
+            xd += 1
+            if len(xex) < 3:
+                xex.append({"bytes": c["bytes"], "why": c["why"], "kind": c["kind"], "xnet": o["xnet"][:300]})
+    ctx.traces(sum(len(c["bytes"]) + 1 for c in cases))
+    ctx.cov["constants"]["blocks"] = kinds
+    ctx.notes.append({"witness_x_net_hpack_disagreements": xd, "examples": xex})
+    errs = [c for c in cases if c["kind"] == "err"]
+    oks = [c for c in cases if c["kind"] == "ok" and c["fields"]]
+    ctx.sample({"must_fail": {k: errs[len(errs) // 2][k] for k in ("bytes", "why", "desc")}})
+    ctx.sample({"must_decode": {k: oks[len(oks) // 2][k] for k in ("bytes", "fields", "desc")}})
 
 
 # ---------------------------------------------------------------------------- C32
@@ -330,7 +431,7 @@ def check_c32(ctx):
 
 # ---------------------------------------------------------------------------- registry
 
-PROPS = {"C30": check_c30, "C36": check_c36, "C32": check_c32}
+PROPS = {"C30": check_c30, "C31": check_c31, "C36": check_c36, "C32": check_c32}
 
 SUBS = {"prio-run"}
 
